@@ -259,7 +259,7 @@ DISPLACEMENT_BASED = {
     'cumulative_displacements', 'distances_from_base_position', 'mean_squared_displacement', 'drift', 'drift_fixed', 'speed', 'tracer_diffusivity',
     'vibration_amplitude', 'attempt_frequency', 'haven_ratio', 'center_of_mass_q', 'drift_floating',
 }
-DERIVE = ('filter', 'slice', 'listidx', 'intidx', 'split', 'drift_correct', 'center_of_mass', 'hold_transitions')
+DERIVE = ('filter', 'slice', 'listidx', 'arrayidx', 'intidx', 'split', 'drift_correct', 'center_of_mass', 'hold_transitions')
 
 
 def generate(run_seed: int, tier: str = 'quick', stream: str = 'seq') -> dict:
@@ -334,7 +334,7 @@ def generate(run_seed: int, tier: str = 'quick', stream: str = 'seq') -> dict:
                     return None if rng.chance(0.3) else rint(-nf - 2, nf + 2)
                 st = rng.pick([None, None, 1, 2, 3, -1, -2])
                 op['slice'] = [part(), part(), st]
-            elif d == 'listidx':
+            elif d in ('listidx', 'arrayidx'):
                 op['idx'] = [rint(-nf, nf - 1) for _ in range(rng.randint(1, 5))]
             elif d == 'intidx':
                 op['i'] = rint(-nf, nf - 1)
@@ -597,12 +597,12 @@ class Run:
             if len(P) == 0:
                 return None, None
             return dict(M, P=P), sl
-        if how == 'listidx':
+        if how in ('listidx', 'arrayidx'):
             n = len(M['P'])
             idx = [i for i in op['idx'] if -n <= i < n]
             if not idx:
                 return None, None
-            return dict(M, P=M['P'][idx]), idx
+            return dict(M, P=M['P'][idx]), (idx if how == 'listidx' else np.array(idx))
         return None, None
 
     def add_entry(self, name, T, M, parent: Entry, origin):
@@ -631,7 +631,7 @@ class Run:
         has_real_species = 'X' not in e.M['symbols']
         name = op['name']
         logged = {'ev': 'DERIVE', 'step': self.step, 'how': how, 'src': e.name, 'name': name, 'client': op.get('client')}
-        if how in ('filter', 'slice', 'listidx'):
+        if how in ('filter', 'slice', 'listidx', 'arrayidx'):
             if how == 'filter' and not has_real_species:
                 return self.trace.log(**logged, skipped='dummy species')
             M2, arg = self.model_derive(e, op)
